@@ -22,7 +22,7 @@
 (***************************************************************************)
 EXTENDS Bytes, Integers, Sequences, FiniteSets, TLC
 
-InitSt == [buckets |-> <<>>, maxGen |-> <<>>, uploads |-> <<>>]
+InitSt == [buckets |-> <<>>, maxGen |-> <<>>, uploads |-> <<>>, uorder |-> <<>>]
 
 HasBucket(st, b) == b \in DOMAIN st.buckets
 Objs(st, b)      == IF HasBucket(st, b) THEN st.buckets[b] ELSE <<>>
@@ -104,17 +104,27 @@ Upload(st, e) ==      \* simple media and multipart uploads: one request
   ELSE Commit(st, e.b, e.n, e.content, e.md5, e.decl, e.attrs, e.meta, e.conds, e.gen, 200)
 
 \* resumable protocol (C02): start captures name, metadata and conditions; each PUT carries a slice
+\* The server remembers at most UploadCap sessions, least recently used first out (gcsemu.go: gcache.New(1024).LRU());
+\* st.uorder lists the live session ids from least to most recently used. Starting a session and every request that
+\* names a live session (whatever it then answers) make that session the most recently used one.
+UploadCap == 1024
+Without(seq, id) == SelectSeq(seq, LAMBDA x : x # id)
+Touch(st, id) == [st EXCEPT !.uorder = Append(Without(st.uorder, id), id)]
+Evict(st) == IF Len(st.uorder) <= UploadCap THEN st
+             ELSE LET old == Head(st.uorder)
+                  IN [st EXCEPT !.uploads = [x \in (DOMAIN st.uploads) \ {old} |-> st.uploads[x]], !.uorder = Tail(st.uorder)]
 ResumableStart(st, e) ==     \* e.id : the upload id the server handed out
   IF BadConds(e.conds) THEN Fail(st, {400})
-  ELSE {Out([st EXCEPT !.uploads = [x \in (DOMAIN st.uploads) \cup {e.id} |->
+  ELSE {Out(Evict(Touch([st EXCEPT !.uploads = [x \in (DOMAIN st.uploads) \cup {e.id} |->
                IF x = e.id THEN [b |-> e.b, n |-> e.n, attrs |-> e.attrs, meta |-> e.meta, conds |-> e.conds, decl |-> e.decl, data |-> <<>>]
-               ELSE st.uploads[x]]], [codes |-> {200}, ok |-> TRUE])}
+               ELSE st.uploads[x]]], e.id)), [codes |-> {200}, ok |-> TRUE])}
 
-DropUpload(st, id) == [st EXCEPT !.uploads = [x \in (DOMAIN st.uploads) \ {id} |-> st.uploads[x]]]
+DropUpload(st, id) == [st EXCEPT !.uploads = [x \in (DOMAIN st.uploads) \ {id} |-> st.uploads[x]], !.uorder = Without(st.uorder, id)]
 \* e.lo = -1: no bytes (status query); e.total = -1: unknown ("*"); e.data: the slice; e.md5full: token of the assembled bytes
-ResumablePut(st, e) ==
-  IF e.id \notin DOMAIN st.uploads THEN Fail(st, {400, 404, 410, 500})        \* unknown or finished session: an error, nothing changes
-  ELSE LET u == st.uploads[e.id]
+ResumablePut(st0, e) ==
+  IF e.id \notin DOMAIN st0.uploads THEN Fail(st0, {400, 404, 410, 500})        \* unknown, finished or evicted session: an error, nothing changes
+  ELSE LET st == Touch(st0, e.id)
+           u == st.uploads[e.id]
            have == Len(u.data)
        IN IF e.lo > have THEN Fail(st, {400})                         \* a gap: bytes missing
           ELSE LET data == IF e.lo = -1 THEN u.data ELSE SubSeq(u.data, 1, e.lo) \o e.data
@@ -184,7 +194,7 @@ List(st, e) == IF HasBucket(st, e.b) THEN {Out(st, [codes |-> {200}, ok |-> TRUE
 (******************************** persistence (C09) *************************)
 \* stopping the emulator (cleanly or by a kill between requests) and starting it again on the same directory:
 \* every bucket and object is served as last acknowledged; pending resumable sessions are gone
-Restart(st, e) == {Out([st EXCEPT !.uploads = <<>>], [codes |-> {0}, ok |-> TRUE])}
+Restart(st, e) == {Out([st EXCEPT !.uploads = <<>>, !.uorder = <<>>], [codes |-> {0}, ok |-> TRUE])}
 \* a content file without a metadata sidecar appears in the directory (written by an older version / by hand):
 \* it is served with that content; its generation and metageneration are whatever the first read reports (logged)
 LegacyFile(st, e) ==
